@@ -13,7 +13,8 @@ family fields
            "shape": "out" | "for" | "set", "mask": int
     tset   "ir": G-inherit / G-modules template set (vt/gen/tsets.py), "data": data
     pipe   "p": filter pipeline IR (this module, see PIPELINES below), "data": {"xs": [...]}
-    raw    "templates": {name: source}, "entry": name, "data": {name: tagged value}     (replays / known findings)
+    raw    "templates": {name: source}, "entry": name | [names, rendered in this order on the same environment pair],
+           "data": {name: tagged value}, "tglobals": {entry: {global: value}} (get_template(globals=...))   (replays / known findings)
 
 ``mask`` selects (bit k of mask <-> k-th eligible position, modulo 16) the for-loop iterables and the operands of
 async-aware filters that are passed through the data function ``ai(...)``: on the sync side (and on the async
@@ -353,7 +354,7 @@ class _Plan:
     """What one family adapter hands to the runner."""
 
     def __init__(self, templates, entries, makers, globs=None, modules=False, labels=(), prechecks=(), tglobals=None):
-        self.tglobals = tglobals        # template-level globals handed to get_template (reach imported modules)
+        self.tglobals = tglobals or {}  # {entry name: template-level globals handed to get_template} (reach imported modules)
         self.prechecks = list(prechecks)  # templates that must render on the sync side, else the case is Excluded
         self.templates = templates      # {name: source}
         self.entries = entries          # template names to render
@@ -381,7 +382,7 @@ def _run_plan(case, plan):
     try:
         for name in plan.entries:
             for di, mk in enumerate(plan.makers):
-                tg = plan.tglobals
+                tg = plan.tglobals.get(name)
                 ref = {"render": _observe(senv, name, "render", mk(senv, False), None, native, tg)}
                 r = ref["render"]
                 if r[0] == "recursion":
@@ -734,7 +735,9 @@ def _plan_raw(case):
             out.setdefault(k, v)
         return out
 
-    return _Plan(dict(case["templates"]), [case.get("entry", "main")], [mk], modules=bool(case.get("modules")), labels={"raw"})
+    entry = case.get("entry", "main")
+    return _Plan(dict(case["templates"]), entry if isinstance(entry, list) else [entry], [mk], modules=bool(case.get("modules")),
+                 labels={"raw"}, tglobals=case.get("tglobals"))
 
 
 # ---------------------------------------------------------------------------------------------------------
@@ -1017,7 +1020,15 @@ def _plan_pipe(case, allow_known=False):
         kind = "lazy" if name in LAZY else "other"
     if kind == "lazy":
         labels.add("lazy_into_" + p["sink"][0])
-    return _Plan(templates, ["main"], [mk], labels=labels, prechecks=prechecks, tglobals={"tg": "TG"})
+    # "warm": a template without template-level globals that imports / includes the library without context is rendered on
+    # the same environment pair before (1) or after (2) main, so that the library's cached default module exists (or not)
+    # when main, which has the extra global tg, imports it
+    entries = ["main"]
+    if p.get("warm"):
+        templates["warm"] = "{% from 'lib' import lm %}{% include 'inc' without context %}{{ lm(0) }}{% import 'lib' as W %}{{ W.libvar }}"
+        entries = ["warm", "main"] if p["warm"] == 1 else ["main", "warm"]
+        labels.add("warm_%d" % p["warm"])
+    return _Plan(templates, entries, [mk], labels=labels, prechecks=prechecks, tglobals={"main": {"tg": "TG"}})
 
 
 # ---------------------------------------------------------------------------------------------------------
@@ -1304,6 +1315,8 @@ def _pipe_cases():
         p = {"src": src, "stages": stages, "sink": sk_, "emb": emb}
         if emb in ("selfblock", "superblock"):
             p["ae"] = chance(50)
+        if sk_[0] == "for" and sk_[1]["v"] == 10:
+            p["warm"] = pick([1, 1, 2, 0])
         return {"fam": "pipe", "cls": pick(CLASSES + ("plain", "plain")), "auto": auto, "wrap": wrap, "p": p, "data": {"xs": xs}}
 
     return cases()
@@ -1412,7 +1425,7 @@ def floors(total, tier):
     for sink in ("join", "list", "first", "sum", "for"):
         if lab.get("lazy_into_" + sink, 0) < 20:
             msgs.append("lazy filter result into %s < 20 times" % sink)
-    for lab_ in ("blockref_under_other_autoescape", "alias_of_plain_list", "auto_byname"):
+    for lab_ in ("blockref_under_other_autoescape", "alias_of_plain_list", "auto_byname", "warm_1"):
         if lab.get(lab_, 0) < 30:
             msgs.append("%s < 30 times" % lab_)
     for v in range(N_FOR_VARIANTS):
